@@ -87,6 +87,7 @@ func cmdCheck(args []string) int {
 	dump := fs.String("dump", "", "directory to dump SMT queries of failing obligations")
 	verbose := fs.Bool("v", false, "verbose")
 	noEvidence := fs.Bool("no-evidence", false, "do not write evidence / replay files")
+	noReplay := fs.Bool("no-replay", false, "do not replay counterexamples on the real code")
 	fs.Parse(args)
 	if *tier == "" {
 		*tier = os.Getenv("VERIF_TIER")
@@ -261,9 +262,16 @@ func cmdCheck(args []string) int {
 				continue
 			}
 			violations++
-			path := writeReplay(vdir, *prop, o.Name, o, u, "", *noEvidence)
+			var rr *replayResult
+			if o.Status == "REFUTED" && !*noReplay {
+				r := eng.replay(sv, u, o, *prop)
+				rr = &r
+			}
+			path := writeReplayRes(vdir, *prop, o.Name, o, u, "", *noEvidence, rr)
 			suffix := " no-failing-input-found"
-			if o.Status == "REFUTED" && len(o.Model) > 0 {
+			if rr != nil && rr.Verdict == "confirmed" {
+				suffix = " replay=confirmed: " + truncate(rr.Detail, 160)
+			} else if o.Status == "REFUTED" && len(o.Model) > 0 {
 				suffix = " model=" + modelString(o.Model) + " no-failing-input-found"
 			}
 			violationLines = append(violationLines, fmt.Sprintf("VIOLATION property=%s replay=%s obligation=%s%s", *prop, path, o.Name, suffix))
@@ -392,6 +400,10 @@ func stripOrdinal(name string) string {
 }
 
 func writeReplay(vdir, prop, name string, o *Obligation, u *Unit, reason string, skip bool) string {
+	return writeReplayRes(vdir, prop, name, o, u, reason, skip, nil)
+}
+
+func writeReplayRes(vdir, prop, name string, o *Obligation, u *Unit, reason string, skip bool, rr *replayResult) string {
 	dir := filepath.Join(vdir, "replays", prop)
 	path := filepath.Join(dir, smtSym(name)+".json")
 	if skip {
@@ -416,6 +428,15 @@ func writeReplay(vdir, prop, name string, o *Obligation, u *Unit, reason string,
 		rec["solver_output"] = truncate(o.Raw, 4000)
 		rec["model"] = o.Model
 		rec["smt_query"] = u.Ctx.query(o, true)
+	}
+	if rr != nil {
+		rec["verdict"] = rr.Verdict
+		rec["replay_detail"] = rr.Detail
+		rec["replay_test_source"] = rr.Source
+		rec["replay_test_output"] = truncate(rr.Output, 4000)
+		if rr.Verdict != "confirmed" {
+			rec["verdict"] = "no-failing-input-found (" + rr.Verdict + ": " + rr.Detail + ")"
+		}
 	}
 	data, _ := json.MarshalIndent(rec, "", " ")
 	os.WriteFile(path, data, 0o644)
